@@ -16,9 +16,22 @@ rv.sched.SchedLock on 2-3-thread workloads explored with a pb(1) sweep + random/
 deadlock is "no runnable thread"); a wait-for-graph lock in the free-running 4-thread stress, which adds
 bytecode-level preemption. A schedule that still ends in the wall-clock watchdog aborts its workload (INCONCLUSIVE). An icontract invariant keeps the queue length (public statistic, and the
 container found by shape) <= max_queue_size on every public-method boundary. No private attribute / method name of the classes under test is used:
-the queue container and the digester table are found by shape (rv.c13_rig.queue_snapshot / _digester_table), sizes and counters come from the
-public getters, locks are wrapped whatever they are called.
+the queue container and the digester table are found by shape (rv.c13_rig.queue_snapshot / _digester_table; ordinary attributes and __slots__, up to two
+helper objects down), sizes and counters come from the public getters, locks are wrapped whatever they are called.
+
+Round 4: every public setting is also ASSIGNED mid-session (on_toxic attached late / replaced / withdrawn / a falsy callable, max_queue_size,
+auto_digest_threshold incl. bool, retention_period from 1.8 s to 1000 h, silent incl. falsy non-bools) and the obligations follow the current value;
+digesters also return non-dicts (list of strings, str, int, set, None, list of pairs, one-shot iterators, an iterator that fails): such an item must end
+up counted XOR reported; every exception type a handler could discriminate on; a share of the histories runs non-silently into a strict UTF-8 stream
+with hostile names (format braces, %, NUL, newlines, regex metacharacters, lone surrogates - there the ingest may raise, the state it leaves is judged),
+str subclasses, identity-only payloads, payloads with unparsable fields / shaped like the library's own records; reads (get_statistics,
+get_queue_status, get_recycled(key), clear_recycling_bin, repr) anywhere; keyword forms of every parameter (never-used public methods / keywords are
+reported as informational counters); shards run in TZ=UTC, 13 h east and 11 h west; every lock field gets a setter that wraps a primitive the object
+itself assigns later (a replaced lock stays observable, the non-sequential outcome is reported); sessions through the public API only that keep no
+Waste alive (address reuse) and continue on copy/deepcopy/pickle duplicates where the object allows them; the same sessions in a `python -O` child;
+one long-lived instance with thousands of operations.
 """
+import os
 import re
 import sys
 import threading
@@ -39,6 +52,13 @@ RULE = ("configs: max_queue_size 2..8, auto_digest_threshold 1..8 (<=, == and > 
         "advance clock 40 min, daemon check_and_prune}: depth <= 4 (quick, 1/3 sample of depth 4) / <= 5 (thorough, 1/4 sample of depth 5) swept on 12 configs, "
         "depth 7-10 (some up to 30) sampled (30% of them with equal-waste / same-object ingests mixed in); a second sweep to depth 4 (quick) / 5 (thorough) on 3 configs over "
         "{ingest an equal-but-distinct twin of the last / second-last waste, ingest the same object again, ingest, ingest_sensitive of a repeated secret, digest(1), digest(), autophagy}; 2-3 threads x 1-3 ops under pb(1) + random/PCT schedules; 4-thread free-running stress. "
+        "round 4: 40% of the sampled histories draw from an alphabet extended by {set on_toxic A|B|None|falsy callable, set max_queue_size, set auto_digest_threshold (1, 3, 1000, True), "
+        "set retention_period (1.8 s, 1 h, 30 h), set silent (False, True, 0), get_statistics / get_queue_status / get_recycled(key) / clear_recycling_bin / repr, digest(max_items=k), digest(True), "
+        "ingest with a digester returning a non-dict (list of str, str, int, set, float, tuple, bytes, bool, None, list of pairs, iterator, failing iterator), clock steps of 0.6 / 0.999 / 1.0 retention periods} "
+        "and 55% vary {how on_toxic gets in: constructor / assigned later / never / falsy callable; retention 1.8 s .. 1000 h, int or float; silent=False into a strict UTF-8 stream; hostile names and payloads}; "
+        "a third sweep to depth 4 on 3 configs over {ingest_sensitive, ingest with non-dict digester result, set on_toxic B / None / A, digest(1), digest(), set threshold 2}; stub digester / callback failures "
+        "rotate over 9 exception types; public-API-only sessions of 60-200 operations without any retained Waste (gc between requests) incl. copy / deepcopy / pickle duplicates; 12 such sessions in a python -O child; "
+        "one session of 6000 (quick) / three of 25000 (thorough) operations on one instance; shards alternate TZ UTC / UTC+13 / UTC-11. "
         "non-trivial = the history reaches the auto-digest threshold or capacity (schedules: additionally >= 1 context switch while another thread "
         "is inside a Lysosome method); distinct = trace of (op, digestion paths/outcomes) resp. (thread, function, line) trace hash")
 ASSUMPTIONS = ["digesters / on_toxic raise only Exception subclasses and do not call back into the lysosome",
@@ -55,6 +75,14 @@ ASSUMPTIONS = ["digesters / on_toxic raise only Exception subclasses and do not 
                "audit; if the getters report queued items and no such container exists the run is INCONCLUSIVE, never a verdict",
                "digesters are wrapped in the table found by shape (instance attribute mapping every WasteType to a callable); without such a table the wrappers are passed "
                "through the public constructor and the shipped digesters run on a one-shot donor instance (public ingest + digest of that one waste)",
+               "the toxic-callback obligation follows the CURRENT public on_toxic attribute at the moment the digester invocation starts; an item processed while on_toxic is None has no callback to reach "
+               "(not judged); a callable whose bool() is False is still a callback (mechanism toxic-callback-falsy-callable-skipped)",
+               "a digester that returns a non-dict (the annotation says dict): the item must be counted (disposed / total_digested) XOR reported as a digestion error (DigestResult.errors; log record on the "
+               "auto-digest path; dropped on the emergency path) - which of the two is the implementation's choice; DigestResult.success must agree with DigestResult.errors",
+               "max_queue_size is only ever lowered to a value >= the current queue length (the bound is an obligation of the calls, not of the assignment)",
+               "a non-silent ingest whose source cannot be encoded by the output stream may raise (it does on the unchanged tree): the item must then be queued and counted, or absent and not counted",
+               "local-clock steps backwards (DST) are not generated: Waste.created_at's default factory reads the real clock, so the virtual clock cannot be moved away from real time; time zones far from UTC are",
+               "copy.copy shares state with the original by construction (only read); deepcopy / pickle duplicates (refused by the unchanged tree: it owns an RLock) must carry on_toxic and must not share state",
                "locks are threading.Lock/RLock instances reachable from the instance, its operon_ai helper objects, its classes or the lysosome module; a hang inside any "
                "other blocking primitive is only seen by the wall-clock watchdog (INCONCLUSIVE, never a verdict)"]
 
@@ -75,6 +103,9 @@ DUP_DEPTH = {"quick": 4, "thorough": 5}
 NDUP = len(DUP_OPS)
 SCHED_EVERY = {"quick": 601, "thorough": 901}      # coprime with the shard counts, so these heavier cases spread over all shards
 STRESS_EVERY = {"quick": 9001, "thorough": 40001}
+PUBLIC_EVERY = {"quick": 151, "thorough": 401}
+LONG_EVERY = {"quick": 29989, "thorough": 166667}
+LONG_OPS = {"quick": 6000, "thorough": 25000}
 
 
 def solo_lock(raw, name):
@@ -114,9 +145,62 @@ def monitored_class():
     return _Monitored
 
 
+SHARD_TZ = [None, "VET-13", "VWT+11"]      # POSIX TZ strings (no tz database needed): 13 h east / 11 h west of UTC
+
+
 def setup_shard(ctx):
+    # each shard is a private process: a share of them runs far from UTC, where datetime.now() and utcnow() differ by many hours
+    tz = SHARD_TZ[ctx.shard % len(SHARD_TZ)]
+    if tz is not None and hasattr(time, "tzset"):
+        os.environ["TZ"] = tz
+        time.tzset()
+        import datetime as _dt
+        off = (_dt.datetime.now() - _dt.datetime.utcnow()).total_seconds()
+        if abs(off) > 3600:
+            ctx.count("shards_far_from_utc")
     from operon_ai.organelles.lysosome import Lysosome
     ctx.count("instrumented_code_objects", sched.instrument(Lysosome))
+
+
+def teardown_shard(ctx):
+    """informational: public methods / keyword parameters of the class under test that no session of this shard used"""
+    import inspect
+    from operon_ai.organelles.lysosome import Lysosome
+    for name in dir(Lysosome):
+        if name.startswith("_") or not callable(getattr(Lysosome, name, None)):
+            continue
+        ctx.count("public_methods_seen")
+        if name not in c13_rig.CALLED:
+            ctx.count("public_method_never_called:" + name)
+            continue
+        try:
+            params = [p for p in inspect.signature(getattr(Lysosome, name)).parameters.values() if p.name != "self"]
+        except (TypeError, ValueError):
+            continue
+        for prm in params[1:] if name in ("ingest_error", "ingest_sensitive") else params:
+            if prm.kind in (prm.POSITIONAL_OR_KEYWORD, prm.KEYWORD_ONLY) and (name, prm.name) not in c13_rig.KWARGS and name not in ("ingest",):
+                ctx.count("public_keyword_never_passed:%s.%s" % (name, prm.name))
+
+
+def extra_parent(pctx):
+    """class I: the public-API sessions once more in a child interpreter started with -O (asserts are compiled away there)"""
+    import subprocess
+    env = dict(os.environ)
+    try:
+        r = subprocess.run([sys.executable, "-O", "-B", "-m", "rv.c13_public", str(pctx.seed), "12"], capture_output=True, text=True, timeout=300, env=env,
+                           cwd=os.path.dirname(os.path.dirname(os.path.abspath(__file__))))
+    except (OSError, subprocess.TimeoutExpired) as e:
+        pctx.inconclusive("the -O child interpreter did not complete (%s); not a verdict" % type(e).__name__)
+        return
+    out = r.stdout.splitlines()
+    if r.returncode != 0 or "OPTIMIZED=1" not in out or not any(l.startswith("DONE") for l in out):
+        pctx.inconclusive("the -O child interpreter failed to run the probe (rc=%s): %s" % (r.returncode, (r.stderr or r.stdout)[-300:]))
+        return
+    pctx.count("optimized_child_sessions", 12)
+    for l in out:
+        if l.startswith("FAIL\t"):
+            _, mech, what, wit = l.split("\t", 3)
+            pctx.violation(mech, "in a python -O child: " + what, {"optimized_child": True, "session": wit})
 
 
 def sweep_total(depth):
@@ -158,7 +242,7 @@ def sweep_layout(tier):
 
 def plan(tier):
     tp, full, deep = sweep_layout(tier)
-    nsweep = len(SWEEP_CFG) * (full + deep) + len(DUP_CFG) * dup_total(tier)
+    nsweep = len(SWEEP_CFG) * (full + deep) + len(DUP_CFG) * dup_total(tier) + len(SET_CFG) * set_total()
     q = tier == "quick"
     return {"cases": nsweep + tp["random"], "shards": 8 if q else 14, "min_nontrivial": 2000,
             "timeout": 600 if q else 2400,
@@ -172,7 +256,13 @@ def plan(tier):
                         "dup_sweep_histories": 2000, "calls:ingest_twin": 3000, "calls:ingest_same": 1500, "calls:ingest_sensitive_rep": 1000,
                         "calls:ingest_error_rep": 500, "same_object_reingested": 1500, "reingested_groups_judged": 5000,
                         "digester_calls_on_reingested_object": 1500, "partial_digests_splitting_equal_wastes": 200,
-                        "ingest_digests_splitting_equal_wastes": 1000, "stress_lock_acquisitions": 500, "max:locks_wrapped_on_one_instance": 1}}
+                        "ingest_digests_splitting_equal_wastes": 1000, "stress_lock_acquisitions": 500, "max:locks_wrapped_on_one_instance": 1,
+                        # round 4
+                        "set_sweep_histories": 2000, "settings_changed": 5000, "settings_changed:on_toxic": 3000, "on_toxic_assigned_after_construction": 1000,
+                        "toxic_callbacks:B": 500, "reads": 1000, "calls_verbose": 5000, "print_failures_tolerated": 20,
+                        "digest_results_with_odd_digester_results": 500, "digester_odd_results:auto": 300, "digester_odd_results:direct": 500,
+                        "public_sessions": 20, "public_sensitive_payloads_judged": 500, "gc_collections": 200,
+                        "long_history_operations": 1000, "optimized_child_sessions": 2}}
 
 
 # ---- single-thread histories ---------------------------------------------------------------
@@ -228,7 +318,7 @@ def drive(ctx, n, cfg, prefill, seq, sample=False):
                     ctx.count("would_hang_observed")
                     ctx.violation(hang_mechanism(rig, kind),
                                   "%s with %d queued item(s), auto_digest_threshold=%d, max_queue_size=%d can never return: %s re-acquired at %s while held since %s" % (
-                                      kind, qlen0, cfg["th"], cfg["max"], e.lock_name, e.second_stack[-3:], e.first_stack[-2:]), witness)
+                                      kind, qlen0, rig.cfg["th"], rig.cfg["max"], e.lock_name, e.second_stack[-3:], e.first_stack[-2:]), witness)
                     return
                 except InvariantBroken as e:
                     rig.trace.append([list(op), "INVARIANT %s" % e])
@@ -236,14 +326,16 @@ def drive(ctx, n, cfg, prefill, seq, sample=False):
                     return
                 if kind == "advance":
                     continue
-                if kind in INGEST_KINDS:
+                if kind in ("set", "read"):
+                    c = {"events": []}
+                elif kind in INGEST_KINDS:
                     c = rig.last_ctx
                     q_at = c.get("qlen_at_ingest")
                     if q_at is not None:
-                        if q_at >= cfg["max"]:
+                        if q_at >= rig.cfg["max"]:
                             ctx.count("ingests_at_capacity")
                             nontrivial = True
-                        if q_at + 1 >= cfg["th"] or "auto" in [e[2][0] for e in c["events"] if e[0] == "dig"]:
+                        if q_at + 1 >= rig.cfg["th"] or "auto" in [e[2][0] for e in c["events"] if e[0] == "dig"]:
                             ctx.count("ingests_reaching_threshold")
                             nontrivial = True
                 try:
@@ -254,12 +346,13 @@ def drive(ctx, n, cfg, prefill, seq, sample=False):
                 except InvariantBroken as e:
                     ctx.violation("queue-over-capacity", "%s: %s" % (kind, e), witness)
                     return
-                c = rig.last_ctx
+                if kind not in ("set", "read"):
+                    c = rig.last_ctx
                 fp.append((kind, tuple((e[2][0], e[2][1]) for e in c["events"] if e[0] == "dig"), min(rig.qlen(), 3)))
                 if flush(ctx, rig, witness):
                     return
             if nontrivial:
-                ctx.nontrivial((cfg["max"], cfg["th"], cfg["mode"], tuple(fp)))
+                ctx.nontrivial((cfg["max"], cfg["th"], cfg["mode"], cfg.get("toxic"), tuple(fp)))
         finally:
             c13_rig._ACTIVE_RIG = None
             rig.close()
@@ -281,16 +374,64 @@ RANDOM_OPS_D = RANDOM_OPS + DUP_RANDOM_OPS
 RANDOM_W_D = RANDOM_W + [6, 4, 3, 2, 6, 3, 2, 4, 2, 4, 2]
 
 
+# round-4 alphabet: public settings assigned mid-session, reads anywhere, digesters that return non-dicts, keyword forms, clock steps
+# measured in retention periods (sub-second retentions and multi-day ones get the same share of boundary crossings)
+EXTRA_OPS = [("ingest", 1, "m"), ("ingest", 2, "m"), ("ingest", 0, "n"), ("ingest", 3, "p"), ("ingest", 1, "g"), ("ingest", 2, "x"), ("ingest", 4, "m"),
+             ("set", "on_toxic", "A"), ("set", "on_toxic", "B"), ("set", "on_toxic", None), ("set", "on_toxic", "F"),
+             ("set", "max", 2), ("set", "max", 5), ("set", "max", 8), ("set", "th", 1), ("set", "th", 3), ("set", "th", 1000), ("set", "th", True),
+             ("set", "ret", 0.0005), ("set", "ret", 30.0), ("set", "ret", 1.0), ("set", "silent", False), ("set", "silent", True), ("set", "silent", 0),
+             ("read", "stats"), ("read", "status"), ("read", "recycled"), ("read", "recycled_key"), ("read", "clear_bin"), ("read", "repr"),
+             ("digest", 1, "kw"), ("digest", True), ("digest", 3, "kw"), ("advance", 0.6, "ret"), ("advance", 1.0, "ret"), ("advance", 0.999, "ret")]
+EXTRA_W = [4, 3, 2, 2, 2, 2, 1,
+           3, 3, 2, 1,
+           1, 1, 1, 1, 1, 1, 1,
+           1, 1, 1, 1, 1, 1,
+           1, 1, 1, 1, 1, 1,
+           2, 1, 1, 3, 2, 1]
+RANDOM_OPS_X = RANDOM_OPS + EXTRA_OPS
+RANDOM_W_X = RANDOM_W + EXTRA_W
+# third sweep: the toxic callback assigned / replaced / withdrawn at every position of short sessions, with digesters that return a non-dict
+SET_OPS = [("ingest_sensitive", "d"), ("ingest", 1, "m"), ("set", "on_toxic", "B"), ("set", "on_toxic", None), ("set", "on_toxic", "A"),
+           ("digest", 1), ("digest", None), ("set", "th", 2)]
+SET_CFG = [(4, 8, 1, "stub", "none"), (3, 3, 0, "shipped", "late"), (4, 2, 1, "stub", "ctor")]
+SET_DEPTH = 4
+NSET = len(SET_OPS)
+
+
+def set_total():
+    return sum(NSET ** d for d in range(1, SET_DEPTH + 1))
+
+
+def vary_config(rng, cfg):
+    """round-3/4 configuration classes on top of (max, th, mode): retention scale, verbose mode on a strict stream, hostile names,
+    how the toxic callback gets in"""
+    r = rng.random()
+    cfg["toxic"] = "ctor" if r < 0.5 else "late" if r < 0.7 else "none" if r < 0.85 else "falsy" if r < 0.93 else "ctor"
+    if cfg["toxic"] == "none" and rng.random() < 0.5:
+        cfg["explicit_none"] = True
+    r = rng.random()
+    cfg["ret_h"] = 1.0 if r < 0.6 else rng.choice([0.0005, 0.01, 30.0, 72.0, 2.0, 1000.0])
+    cfg["ret_int"] = rng.random() < 0.3
+    cfg["silent"] = rng.random() >= 0.3
+    cfg["hostile"] = rng.random() < 0.35
+    return cfg
+
+
 def random_history(rng):
     mx = rng.randint(2, 8)
     th = rng.choice([rng.randint(1, 8), rng.randint(1, mx), mx, mx + 1])
     th = max(1, min(8, th))
     cfg = {"max": mx, "th": th, "ret_h": 1.0, "mode": "stub" if rng.random() < 0.75 else "shipped"}
     L = rng.randint(7, 10) if rng.random() < 0.8 else rng.randint(11, 30)
-    if rng.random() < 0.3:      # histories in which equal wastes / re-ingested objects are frequent
+    r = rng.random()
+    if r < 0.3:      # histories in which equal wastes / re-ingested objects are frequent
         seq = rng.choices(RANDOM_OPS_D, weights=RANDOM_W_D, k=L)
-    else:
+    elif r < 0.6:
         seq = rng.choices(RANDOM_OPS, weights=RANDOM_W, k=L)
+    else:           # round-4 classes
+        seq = rng.choices(RANDOM_OPS_X, weights=RANDOM_W_X, k=L)
+    if r >= 0.45:
+        vary_config(rng, cfg)
     return cfg, seq
 
 
@@ -317,15 +458,81 @@ def run_case(ctx, n):
         ctx.count("dup_sweep_histories")
         return drive(ctx, n, {"max": mx, "th": th, "ret_h": 1.0, "mode": mode}, PREFILL[:pre], decode(j, DUP_DEPTH[ctx.tier], DUP_OPS), sample=(n2 % 5000 == 77))
     nsweep += len(DUP_CFG) * ndup
+    n3 = n - nsweep
+    nset = set_total()
+    if n3 < len(SET_CFG) * nset:
+        ci, j = divmod(n3, nset)
+        mx, th, pre, mode, toxic = SET_CFG[ci]
+        ctx.count("set_sweep_histories")
+        return drive(ctx, n, {"max": mx, "th": th, "ret_h": 1.0, "mode": mode, "toxic": toxic}, PREFILL[:pre], decode(j, SET_DEPTH, SET_OPS), sample=(n3 % 5000 == 78))
+    nsweep += len(SET_CFG) * nset
     m = n - nsweep
     rng = ctx.rng(n)
     if m % STRESS_EVERY[ctx.tier] == 11:
         return stress_case(ctx, n, rng)
+    if m % LONG_EVERY[ctx.tier] == 13:
+        return long_case(ctx, n, rng)
+    if m % PUBLIC_EVERY[ctx.tier] == 7:
+        return public_case(ctx, n, rng)
     if m % SCHED_EVERY[ctx.tier] == 5:
         return sched_case(ctx, n, rng)
     cfg, seq = random_history(rng)
     ctx.count("random_histories")
     drive(ctx, n, cfg, [], seq, sample=(m % 9000 == 3))
+
+
+# ---- sessions through the public API only, no Waste object kept alive (address reuse), duplicates by copy / deepcopy / pickle ----------
+def public_case(ctx, n, rng):
+    from rv import c13_public
+    dup = rng.choice([None, None, "deepcopy", "pickle", "copy"])
+    st = {}
+    problems, wit = c13_public.session(rng, nops=rng.choice([60, 120, 200]), duplicate=dup, stats=st)
+    for k, v in st.items():
+        ctx.count(k, v)
+    seen = set()
+    for mech, what in problems:
+        if mech not in seen:
+            seen.add(mech)
+            ctx.violation(mech, what, dict(wit, public_session=True, case=n))
+
+
+# ---- one long-lived instance: thousands of operations, audited every few hundred ----------------------------------------------------
+LONG_OPS_ALPHABET = [o for o in RANDOM_OPS_X if not (o[0] == "set" and o[1] in ("silent",)) and o != ("set", "on_toxic", "F")]
+LONG_W = [w for o, w in zip(RANDOM_OPS_X, RANDOM_W_X) if o in LONG_OPS_ALPHABET]
+
+
+def long_case(ctx, n, rng):
+    import operon_ai.organelles.lysosome as lmod
+    clock = VClock()
+    nops = LONG_OPS[ctx.tier]
+    cfg = {"max": rng.choice([8, 50, 1000]), "th": rng.choice([6, 100, 10 ** 9]), "ret_h": 1.0, "mode": rng.choice(["stub", "shipped"]), "toxic": "late"}
+    wit = {"long_history": True, "config": cfg, "operations": nops, "case": n}
+    with patched(clock, lmod):
+        rig = Rig(cfg, clock, solo_lock)
+        c13_rig._ACTIVE_RIG = rig
+        try:
+            for i in range(nops):
+                op = rng.choices(LONG_OPS_ALPHABET, weights=LONG_W, k=1)[0]
+                try:
+                    rig.apply(op)
+                except WouldHang as e:
+                    ctx.violation(hang_mechanism(rig, op[0]), "operation %d (%s) of a long session can never return: %s re-acquired at %s" % (i, op[0], e.lock_name, e.second_stack[-3:]), wit)
+                    return
+                if len(rig.trace) > 40:
+                    del rig.trace[:-20]
+                if i % 500 == 499 or i == nops - 1:
+                    rig.audit()
+                    if rig.problems:
+                        wit["at_operation"] = i
+                        wit["trace_tail"] = list(rig.trace[-20:])
+                        flush(ctx, rig, wit)
+                        return
+            ctx.count("long_history_operations", nops)
+            ctx.count("long_histories")
+        finally:
+            c13_rig._ACTIVE_RIG = None
+            rig.close()
+            harvest(ctx, rig)
 
 
 # ---- thread workloads under the controlled scheduler --------------------------------------
@@ -340,6 +547,10 @@ def gen_threads(rng):
     mx = rng.randint(2, 5)
     th = max(1, min(8, rng.choice([rng.randint(1, 6), mx, mx + 1, 2, 3])))
     cfg = {"max": mx, "th": th, "ret_h": 1.0, "mode": "stub" if rng.random() < 0.8 else "shipped"}
+    cfg["toxic"] = rng.choice(["ctor", "ctor", "late", "none"])
+    cfg["silent"] = rng.random() >= 0.25
+    cfg["hostile"] = rng.random() < 0.25
+    cfg["threads"] = True       # (names the output stream cannot encode are left to the single-thread histories, prefill included)
     kind = rng.choice(["mixed", "mixed", "mixed", "digest_vs_digest", "ingest_vs_digest", "at_capacity", "expiry"])
     npre = rng.randint(0, max(0, min(mx, th - 1, 4)))
     prefill = [rng.choice(THREAD_OPS[:6]) for _ in range(npre)]
@@ -360,6 +571,20 @@ def gen_threads(rng):
         k = rng.randint(1, min(th - 1, mx, 3))
         prefill = [rng.choice(THREAD_OPS[:6]) for _ in range(k)] + [("advance", 4800.0)]
         threads[0] = [("autophagy",)] + threads[0][:2]
+    if rng.random() < 0.2:
+        # a burst of ingests arriving while another thread is between the critical sections of a partial digest, on a full queue whose
+        # auto-digest threshold is out of reach: only the capacity rule keeps the queue bounded
+        kind = "ingest_during_digest"
+        cfg["th"] = th = rng.choice([mx + 2, mx + 3, 1000])
+        prefill = [rng.choice(THREAD_OPS[:6]) for _ in range(mx - rng.choice([0, 0, 1]))]
+        k = rng.choice([1, 2])
+        threads = [[("digest", k)], [rng.choice(THREAD_OPS[:6]) for _ in range(k + 1)]] + threads[2:]
+    if cfg["toxic"] == "none":          # the callback arrives (and may be replaced) before the threads start
+        prefill = list(prefill) + [("set", "on_toxic", rng.choice(["A", "B"]))]
+    elif rng.random() < 0.3:
+        prefill = [("set", "on_toxic", "B")] + list(prefill)
+    if rng.random() < 0.3:
+        threads = [[(o[0], o[1], rng.choice(["m", "g", "x", "n"])) if (o[0] == "ingest" and o[2] == "d" and rng.random() < 0.5) else o for o in ops] for ops in threads]
     return cfg, prefill, threads
 
 
@@ -509,6 +734,14 @@ def stress_case(ctx, n, rng):
                         if stop.is_set():
                             return
                         rig.apply(r.choices(THREAD_OPS_D, weights=THREAD_W_D, k=1)[0])
+                        me = threading.get_ident()
+                        for l in rig.locks:
+                            if l.depth > 0 and l.owner == me:
+                                # the call returned with the lock still held by this thread: every other thread would wait for ever
+                                rig.problem("lock-left-held", "free-running stress: a call returned while its thread still holds %s" % l.name)
+                                stop.set()
+                                while l.depth > 0 and l.owner == me:
+                                    l.release()
                 except WouldHang as e:
                     hung.append((i, e))
                     stop.set()
